@@ -3,6 +3,7 @@ package main
 import (
 	"fmt"
 	"go/ast"
+	"go/constant"
 	"go/token"
 	"go/types"
 	"os"
@@ -126,6 +127,81 @@ func checkC19(w *World, r *Report) {
 			return true
 		})
 		r.Check(!lossy, "R19.3", "decodeValue number rendering", fd.Pos(), "no float→integer conversion", "a JSON number is truncated to an integer before validation: 1.5 for a uint8 leaf is silently accepted as 1 and a decimal64 loses its fraction")
+	})
+
+	r.Rule("R19.13", "an integer written in JSON is kept digit for digit: in decodeValue the binary floating-point reading of a number (json.Number.Float64) is used only for texts with a fraction or an exponent ('.', 'e', 'E'); no fixed-width integer reading (Int64) stands in for the text — uint64 and decimal64 values beyond 2^63 or 2^53 must survive", 1)
+	r.guard("R19.13", func() {
+		f := w.SSAFunc(w.Func("data/encoding", "decodeValue"))
+		if f == nil {
+			panic(undecided{"encoding.decodeValue"})
+		}
+		sym := NewSym(w)
+		why := ""
+		n := 0
+		for _, b := range f.Blocks {
+			for _, in := range b.Instrs {
+				c, ok := in.(*ssa.Call)
+				if !ok || c.Call.StaticCallee() == nil {
+					continue
+				}
+				switch c.Call.StaticCallee().String() {
+				case "(encoding/json.Number).Int64":
+					n++
+					why = "the number is read through Int64, which fails from 2^63 on"
+				case "(encoding/json.Number).Float64":
+					n++
+					has := false
+					msg := pcImplies(sym.PathCond(f.Blocks[0], b, nil), func(a *pcAtom) string {
+						if cc, ok := a.v.(*ssa.Call); ok && cc.Call.StaticCallee() != nil && cc.Call.StaticCallee().String() == "strings.ContainsAny" {
+							if k, isK := cc.Call.Args[1].(*ssa.Const); isK && k.Value != nil && constant.StringVal(k.Value) == ".eE" {
+								has = true
+								return "fractional"
+							}
+						}
+						return ""
+					}, func(env map[string]bool) bool { return env["fractional"] })
+					if !has || msg != "" {
+						why = "the binary floating-point reading is used for texts that are plain integers"
+					}
+				}
+			}
+		}
+		if n == 0 {
+			panic(undecided{"decodeValue: reading of a JSON number"})
+		}
+		r.Check(why == "", "R19.13", "decodeValue keeps integer literals as text", f.Pos(), "Float64 only under strings.ContainsAny(text, \".eE\")", why+": 18446744073709551615 becomes 18446744073709552000 and is rejected (or a value above 2^63 is silently altered), so the encoder's own output no longer decodes")
+	})
+
+	r.Rule("R19.14", "XML is read strictly: the decoder of data/encoding never switches on the lenient modes of encoding/xml (Strict = false, AutoClose, Entity) — with HTML auto-closing an element named link, base, input, meta … is closed at once and what follows it is dropped without an error", 1)
+	r.guard("R19.14", func() {
+		var bad []string
+		for _, f := range allFuncs(w.SSAPkg("data/encoding")) {
+			if isTestFile(w, f.Pos()) {
+				continue
+			}
+			for _, b := range f.Blocks {
+				for _, in := range b.Instrs {
+					st, ok := in.(*ssa.Store)
+					if !ok {
+						continue
+					}
+					fa, ok := st.Addr.(*ssa.FieldAddr)
+					if !ok {
+						continue
+					}
+					fv := fieldAddrVar(fa)
+					if fv == nil || fv.Pkg() == nil || fv.Pkg().Path() != "encoding/xml" {
+						continue
+					}
+					switch fv.Name() {
+					case "Strict", "AutoClose", "Entity":
+						bad = append(bad, funcKey(f)+" sets Decoder."+fv.Name())
+					}
+				}
+			}
+		}
+		sort.Strings(bad)
+		r.Check(len(bad) == 0, "R19.14", "data/encoding decodes XML strictly", token.NoPos, "no lenient decoder mode", strings.Join(bad, "; ")+": schema nodes named like HTML void elements lose their content and their later siblings when decoded from XML")
 	})
 
 	r.Rule("R19.4", "a decoded scalar is stored only if the schema accepted that very string: in convertToDataNode every value appended to the result passed sn.Validate, or is the identityref simple form that isIdentityrefSimpleFormValid re-validated", 2)
